@@ -639,6 +639,8 @@ class Engine:
         """python index -> 0-based, with bound obligation"""
         i = to_num(i)
         ic = concrete(i) if not isinstance(i, int) else i
+        if ic is None and self.spec_mode:
+            return i            # specification language: a symbolic index is a plain (non-negative) position
         if ic is not None and isinstance(n, int):
             ic = int(ic)
             if ic < 0:
